@@ -988,6 +988,105 @@ def rule_program_visible_state(ctx: Ctx, repo: Repo) -> None:
     ctx.floor("R-C03.6", "calls reachable from the profile function examined for process-wide state", n, 30)
 
 
+# Standard-library calls that set state of the whole process (registries, hooks, limits, the warning filter, ...): the traced
+# program shares that state, so a call of one of them by the package - at import, which happens in the program's interpreter
+# before the program starts, or later - changes what the program computes or prints.  sys.setprofile is not listed: installing
+# and restoring the profiler is what R-C03.3 decides.
+PROCESS_WIDE_SETTERS = {
+    "sqlite3.register_adapter", "sqlite3.register_converter", "sqlite3.enable_callback_tracebacks",
+    "sys.setrecursionlimit", "sys.setswitchinterval", "sys.settrace", "sys.setdlopenflags", "sys.set_int_max_str_digits", "sys.set_asyncgen_hooks",
+    "sys.set_coroutine_origin_tracking_depth", "sys.addaudithook",
+    "threading.setprofile", "threading.settrace", "threading.setprofile_all_threads", "threading.settrace_all_threads", "threading.stack_size",
+    "warnings.simplefilter", "warnings.filterwarnings", "warnings.resetwarnings",
+    "logging.basicConfig", "logging.disable", "logging.setLoggerClass", "logging.captureWarnings", "logging.setLogRecordFactory", "logging.addLevelName",
+    "os.chdir", "os.umask", "os.putenv", "os.unsetenv", "os.nice", "os.setpgrp", "locale.setlocale",
+    "signal.signal", "signal.alarm", "signal.setitimer", "signal.set_wakeup_fd", "atexit.register", "atexit.unregister",
+    "gc.disable", "gc.enable", "gc.set_threshold", "gc.set_debug", "gc.freeze", "faulthandler.enable", "faulthandler.disable",
+    "socket.setdefaulttimeout", "decimal.setcontext", "copyreg.pickle", "copyreg.constructor", "codecs.register", "codecs.register_error",
+    "mimetypes.add_type", "mimetypes.init", "time.tzset", "tracemalloc.start", "tracemalloc.stop", "multiprocessing.set_start_method",
+    "asyncio.set_event_loop_policy", "asyncio.set_event_loop", "random.seed", "random.setstate",
+}
+# process-wide objects whose mutation the program sees: `sys.path.insert(...)`, `os.environ[...] = ...`, `sys.stdout = ...`
+PROCESS_WIDE_OBJECTS = {"sys.path", "sys.modules", "sys.meta_path", "sys.path_hooks", "sys.argv", "os.environ", "sys.warnoptions", "warnings.filters"}
+PROCESS_WIDE_ATTRS = {"sys": None, "builtins": None, "os": {"environ"}}  # module -> attributes that may not be assigned (None: any)
+MUTATING_METHODS = {"insert", "append", "extend", "remove", "pop", "clear", "update", "setdefault", "popitem", "sort", "reverse", "__setitem__", "__delitem__"}
+# the command line front end is its own process set-up, documented as such: `monkeytype run script.py` runs the script like
+# `python script.py` would (own sys.argv, current directory importable)
+PROCESS_WIDE_ALLOWED = {
+    ("monkeytype.cli.run_handler", "sys.argv"): "`monkeytype run` gives the script the argv it would have as `python script.py args` and restores it",
+    ("monkeytype.cli.entry_point_main", "sys.path"): "the command line tool makes the current directory importable, as `python` itself does",
+}
+
+
+def rule_process_wide_setters(ctx: Ctx, repo: Repo) -> None:
+    """R-C03.6 (second half): no code of the package - module level, class bodies, functions - calls a standard-library
+    function that sets process-wide state, or mutates / rebinds a process-wide object, outside the allowed table."""
+    n = n_allowed = 0
+    for mod in repo.modules.values():
+        if not mod.name.startswith("monkeytype"):
+            continue
+        owner_of: Dict[int, str] = {}
+        for fi in mod.functions.values():
+            for x in ast.walk(fi.node):
+                owner_of.setdefault(id(x), fi.fq)
+        # innermost function wins: walk functions sorted by nesting depth (qualname length) descending
+        for fi in sorted(mod.functions.values(), key=lambda f: -len(f.qualname.split("."))):
+            for x in walk_no_nested(fi.node):
+                owner_of[id(x)] = fi.fq
+
+        def canon(e: ast.AST) -> Optional[str]:
+            d = dotted(e)
+            if d is None:
+                return None
+            head, _, rest = d.partition(".")
+            target = mod.imports.get(head)
+            if target is None:
+                return None
+            return target + ("." + rest if rest else "")
+
+        def where(x: ast.AST) -> str:
+            return owner_of.get(id(x), mod.name + ".<module level>")
+
+        for x in ast.walk(mod.tree):
+            hit: Optional[Tuple[str, str]] = None
+            if isinstance(x, ast.Call):
+                c = canon(x.func)
+                n += 1
+                if c in PROCESS_WIDE_SETTERS:
+                    hit = (c, f"{c}(...) sets state of the whole process")
+                elif isinstance(x.func, ast.Attribute) and x.func.attr in MUTATING_METHODS:
+                    base = canon(x.func.value)
+                    if base in PROCESS_WIDE_OBJECTS:
+                        hit = (base, f"{base}.{x.func.attr}(...) changes a process-wide object")
+            elif isinstance(x, (ast.Assign, ast.AugAssign, ast.AnnAssign, ast.Delete)):
+                tgts = x.targets if isinstance(x, (ast.Assign, ast.Delete)) else [x.target]
+                for t in tgts:
+                    for tt in (t.elts if isinstance(t, (ast.Tuple, ast.List)) else [t]):
+                        n += 1
+                        if isinstance(tt, ast.Subscript):
+                            base = canon(tt.value)
+                            if base in PROCESS_WIDE_OBJECTS:
+                                hit = (base, f"an item of {base} is assigned")
+                        elif isinstance(tt, ast.Attribute):
+                            base = canon(tt.value)
+                            full = canon(tt)
+                            if base in PROCESS_WIDE_ATTRS and (PROCESS_WIDE_ATTRS[base] is None or tt.attr in PROCESS_WIDE_ATTRS[base]):  # type: ignore[operator]
+                                hit = (full or f"{base}.{tt.attr}", f"{base}.{tt.attr} is rebound")
+            if hit is None:
+                continue
+            w = where(x)
+            if (w, hit[0]) in PROCESS_WIDE_ALLOWED:
+                n_allowed += 1
+                ctx.ok("R-C03.6", w, f"{hit[1]}: allowed - {PROCESS_WIDE_ALLOWED[(w, hit[0])]}")
+                continue
+            ctx.violate("R-C03.6", w, hit[1],
+                        "the package changes state that the traced program shares with it (the package is imported and runs inside the program's interpreter): the program no longer behaves as it does untraced",
+                        node=x)
+    ctx.floor("R-C03.6", "calls and assignments of the package examined for process-wide state", n, 500)
+    # the recogniser is alive: the command line front end's own (allowed) set-up is seen on every run
+    ctx.floor("R-C03.6", "process-wide constructs recognised (the allowed ones of the command line front end)", n_allowed, 1)
+
+
 def run(ctx: Ctx, repo: Repo, tier: str) -> None:
     ctx.trust(
         "CPython data model: isinstance() falls back to obj.__class__; getattr/hasattr/attribute access run __getattribute__/"
@@ -1009,4 +1108,5 @@ def run(ctx: Ctx, repo: Repo, tier: str) -> None:
     ctx.attempt(rule_exit_contained, ctx, repo)
     ctx.attempt(rule_serializer_contained, ctx, repo)
     ctx.attempt(rule_program_visible_state, ctx, repo)
+    ctx.attempt(rule_process_wide_setters, ctx, repo)
     ctx.settle()
